@@ -2,19 +2,20 @@
 from __future__ import annotations
 
 import semcheck
+import tgen
 import semprop
 from props import _generic
 
 MODULE = "NgoVerif.Props.C10"
 LEVEL = ("Lean: factoring a literal set into aux(V) is definitional extension + folding (M3, M3f): stable models one-to-one, aux true exactly where the set holds - under the schema's hypotheses (definition independent of the new atom, persistent, occurrence = defining body under the same binding). The pass's syntactic decisions (binding of the set, connectedness, canonical renaming, variables passed on) are validated on the real code with clingo on the whole source vocabulary, one-to-one.")
-RULE = ('oracle cases = programs harvested from /repo/tests (ast,literal_duplication first) and mutations of them under duplication only, 5 instances each (empty, small integer/symbolic domains, dense tiny domains, duplicates) over the input predicates; compared: answer sets on voc(P) one-to-one + costs; non-trivial = the pass changed the program and at least one instance was compared; distinct by program+flags')
+RULE = ('oracle cases = programs harvested from /repo/tests (ast,literal_duplication first) mutations of them and programs of a targeted type-directed generator (harness/tgen.py) under duplication only, 5 instances each (empty, small integer/symbolic domains, dense tiny domains, duplicates) over the input predicates; compared: answer sets on voc(P) one-to-one + costs; non-trivial = the pass changed the program and at least one instance was compared; distinct by program+flags')
 EXTRA = ['reserved(X,X) :- X = 1..N, size(N), open. other(X) :- X = 1..N, size(N), open, x.', 'half(H) :- H = #sum{ 2*P,A : price(A,P), sale(A); 1,B : price(B,Q), sale(B), big(Q) }.', 'a(X) :- b(X), c(Y) : d(X,Y), e(Y). f(X) :- b(X), c(Y) : d(X,Y), e(Y); g.', 'foo(X) :- a(X), b(X), c(X). bar(X) :- a(X), b(X), e(X).']
 
 
 def run(ctx) -> int:
     flags = [semcheck.flags_only("duplication")]
     return _generic.run_semantic(ctx, MODULE, LEVEL, RULE, flags, 'voc', {'literal_duplication', 'ast'}, EXTRA, (110, 700), (80, 3000),
-                                 n_inst=5, facts_over='in', outp_choices=('auto',), one_to_one=True,
+                                 n_inst=5, facts_over='in', outp_choices=('auto',), one_to_one=True, generators=[tgen.GENERATORS['duplication']],
                                  assumptions=("the pass's syntactic decisions are not derived from the ground-level side conditions in Lean (validated by the oracle)", 'instances range over the declared/auto-detected input predicates only'))
 
 
